@@ -172,7 +172,7 @@ class Run:
         with open(os.path.join(wd, name + ".cfg"), "w") as f:
             f.write(cfg)
         workers = workers or NCPU
-        cmd = ["java", "-XX:+UseParallelGC", "-Xss512m"]
+        cmd = ["java", "-XX:+UseParallelGC", "-Xss512m", "-Djava.io.tmpdir=" + wd]
         if heap:
             cmd.append("-Xmx" + heap)
         cmd += ["-cp", TLAJAR, "tlc2.TLC", "-metadir", os.path.join(wd, "meta"),
@@ -328,6 +328,7 @@ class Run:
         drv = self.build_driver()
         e = dict(os.environ)
         e.update(env or {})
+        e["VERIF_UNBUFFERED"] = "1"
         shards = shards or NCPU
         obs, killers = [], []
 
@@ -343,29 +344,34 @@ class Run:
                         break          # a line cut short by the death of the worker
             return p.returncode, out, p.stderr.decode("utf-8", "replace")
 
-        def solve(batch, depth=0):
-            if not batch:
-                return
-            try:
-                rc, out, err = run_batch(batch)
-            except subprocess.TimeoutExpired:
-                rc, out, err = -9, [], "TIMEOUT"
-            if rc == 0 and len(out) == len(batch):
-                obs.extend(out)
-                return
-            if len(batch) == 1:
-                killers.append((batch[0], rc, err[-1500:]))
-                return
-            # the outputs before the crash are valid; continue after the last answered case
-            done = len(out)
-            obs.extend(out)
-            rest = batch[done:]
-            if done > 0:
-                solve(rest, depth + 1)
-            else:
-                mid = max(1, len(rest) // 2) if len(rest) > 1 else 1
-                solve(rest[:1], depth + 1)
-                solve(rest[1:], depth + 1)
+        cap = 40          # enough killing inputs to report; the rest of the corpus is skipped once reached
+
+        def solve(batch):
+            i = 0
+            while i < len(batch):
+                if len(killers) >= cap:
+                    self.skipped_isolated = getattr(self, "skipped_isolated", 0) + len(batch) - i
+                    return
+                try:
+                    rc, out, err = run_batch(batch[i:])
+                except subprocess.TimeoutExpired:
+                    rc, out, err = -9, [], "TIMEOUT"
+                obs.extend(out)           # the outputs before the crash are valid
+                if rc == 0 and len(out) == len(batch) - i:
+                    return
+                i += len(out)
+                if i >= len(batch):
+                    return
+                # batch[i] is the suspect: confirm it alone
+                try:
+                    rc1, out1, err1 = run_batch(batch[i:i + 1])
+                except subprocess.TimeoutExpired:
+                    rc1, out1, err1 = -9, [], "TIMEOUT"
+                if rc1 == 0 and len(out1) == 1:
+                    obs.extend(out1)
+                else:
+                    killers.append((batch[i], rc1, err1[-1500:]))
+                i += 1
 
         import concurrent.futures
         chunks = [cases[i::shards] for i in range(shards)]
